@@ -177,9 +177,9 @@ def base_programs(tier):
                 continue
             if f == "K" and (i % (12 if quick else 3)):
                 continue
-            if f in ("F", "A") and quick and i % 4:
+            if f in ("F", "A") and quick and i % 6:
                 continue
-            if f == "H" and quick and i % 5:
+            if f == "H" and quick and i % 7:
                 continue
             yield case
 
